@@ -14,7 +14,6 @@ Fixpoint rg_item (fo : float_oracle) (is_last : bool) (it : item) : bool :=
   match it with
   | Item n r m b brs =>
       item_ok fo (Item n r m b brs)
-      && (negb (is_some m) || negb (is_some b))
       && (negb (is_some b) || negb (is_nil brs) || negb is_last)
       && (fix go (brs : list branch) : bool :=
             match brs with
@@ -50,7 +49,7 @@ Fixpoint rg_branches (fo : float_oracle) (is_last : bool) (brs : list branch) : 
   end.
 Lemma rg_item_eq fo is_last n r m b brs :
   rg_item fo is_last (Item n r m b brs)
-  = item_ok fo (Item n r m b brs) && (negb (is_some m) || negb (is_some b))
+  = item_ok fo (Item n r m b brs)
     && (negb (is_some b) || negb (is_nil brs) || negb is_last) && rg_branches fo is_last brs.
 Proof.
   cbn [rg_item]. f_equal. induction brs as [|[c bm a] tl IH]; [reflexivity|].
@@ -97,14 +96,11 @@ Definition branch_flat (fo : float_oracle) (br : branch) : Prop := forall tail_o
   exists l, lin_branch br = Some l /\ forallb (lin_ok fo) l = true /\ balanced l.
 
 Lemma node_lin_ok fo n r m b brs :
-  item_ok fo (Item n r m b brs) = true -> (negb (is_some m) || negb (is_some b)) = true ->
-  lin_ok fo (node_lin n r m b) = true.
+  item_ok fo (Item n r m b brs) = true -> lin_ok fo (node_lin n r m b) = true.
 Proof.
   unfold item_ok, lin_ok. cbn [i_name i_rings i_mult i_branches node_lin l_name l_rings l_mult l_bond l_close].
-  intros H Hm. apply andb_prop in H as [H _]. apply andb_prop in H as [H Hmu]. apply andb_prop in H as [Hn Hr].
-  rewrite Hn, Hr. cbn [andb]. rewrite andb_true_r. destruct m as [ds|]; [|reflexivity].
-  apply andb_prop in Hmu as [Hmu H1]. apply andb_prop in Hmu as [Hnil Hd]. rewrite Hnil, Hd, H1.
-  cbn [is_some negb orb] in Hm. now rewrite Hm.
+  intros H. apply andb_prop in H as [H _]. apply andb_prop in H as [H Hmu]. apply andb_prop in H as [Hn Hr].
+  rewrite Hn, Hr. cbn [andb]. rewrite andb_true_r. exact Hmu.
 Qed.
 
 Lemma concat_opt_some {A} (a : list A) r :
@@ -189,7 +185,7 @@ Lemma ast_flat fo : forall it, item_flat fo it.
 Proof.
   apply (item_ind2 (item_flat fo) (fun br => b_chain br <> [] -> branch_flat fo br)).
   - intros n r m b brs Hbrs is_last Hrg. rewrite rg_item_eq in Hrg.
-    apply andb_prop in Hrg as [Hrg Hrb]. apply andb_prop in Hrg as [Hrg Hcons]. apply andb_prop in Hrg as [Hio Hmb].
+    apply andb_prop in Hrg as [Hrg Hrb]. apply andb_prop in Hrg as [Hio Hcons].
     assert (Hne : forallb (fun br => negb (is_nil (b_chain br))) brs = true).
     { unfold item_ok in Hio. cbn [i_branches] in Hio. apply andb_prop in Hio as [_ Hio].
       rewrite forallb_forall in *. intros br Hin. specialize (Hio br Hin). now apply andb_prop in Hio as [Hio _]. }
@@ -271,29 +267,25 @@ Proof.
   - now apply (IH (Datatypes.S k)).
 Qed.
 
-(** the four global conditions, bundled *)
+(** the global conditions, bundled *)
 Definition good (fo : float_oracle) (c : chain) : Prop :=
-  forallb (item_ok fo) (flat_chain c) = true /\ has_branch_mult c = false
-  /\ cls_double_close c = false /\ cls_nodemult_sym c = false.
+  forallb (item_ok fo) (flat_chain c) = true /\ has_branch_mult c = false /\ cls_double_close c = false.
 Definition last_plain (c : list item) : bool :=
   match rev c with it :: _ => is_nil (i_branches it) | [] => true end.
 Lemma good_cons fo n r m b brs c : good fo (Item n r m b brs :: c) ->
-  item_ok fo (Item n r m b brs) = true /\ (negb (is_some m) || negb (is_some b)) = true
+  item_ok fo (Item n r m b brs) = true
   /\ (forall br, In br brs -> b_mult br = None /\ last_plain (b_chain br) = true /\ good fo (b_chain br))
   /\ good fo c.
 Proof.
-  intros (H1 & H2 & H3 & H4).
+  intros (H1 & H2 & H3).
   unfold has_branch_mult, cls_double_close in *. rewrite sites_cons in H2, H3.
   rewrite !existsb_app in H2, H3. apply orb_false_elim in H2 as [H2a H2]. apply orb_false_elim in H2 as [H2b H2c].
   apply orb_false_elim in H3 as [H3a H3]. apply orb_false_elim in H3 as [H3b H3c].
   rewrite existsb_flat_map in H2b, H3b.
-  unfold cls_nodemult_sym in H4. rewrite flat_chain_cons in H1, H4. cbn [forallb existsb i_mult i_bond] in H1, H4.
+  rewrite flat_chain_cons in H1. cbn [forallb] in H1.
   apply andb_prop in H1 as [H1a H1]. rewrite forallb_app in H1. apply andb_prop in H1 as [H1b H1c].
-  apply orb_false_elim in H4 as [H4a H4]. rewrite existsb_app in H4. apply orb_false_elim in H4 as [H4b H4c].
-  rewrite forallb_flat_map in H1b. rewrite existsb_flat_map in H4b.
-  split; [assumption|]. split.
-  { destruct m, b; try reflexivity. discriminate. }
-  split; [|repeat split; assumption].
+  rewrite forallb_flat_map in H1b.
+  split; [assumption|]. split; [|repeat split; assumption].
   intros br Hin.
   destruct (existsb_local _ _ H2a br Hin) as (j1 & Hj1). destruct (existsb_local _ _ H3a br Hin) as (j2 & Hj2).
   cbn [snd] in Hj1, Hj2. split; [now destruct (b_mult br)|]. split.
@@ -302,7 +294,7 @@ Proof.
   assert (Hf : forall (p : branch -> bool), existsb p brs = false -> p br = false).
   { intros p Hp. destruct (p br) eqn:E; [|reflexivity]. assert (existsb p brs = true); [|congruence].
     apply existsb_exists. now exists br. }
-  repeat split; [assumption|apply (Hf _ H2b)|apply (Hf _ H3b)|apply (Hf _ H4b)].
+  repeat split; [assumption|apply (Hf _ H2b)|apply (Hf _ H3b)].
 Qed.
 
 (** consumers, one level at a time *)
@@ -323,9 +315,9 @@ Definition item_rg (fo : float_oracle) (it : item) : Prop :=
   forall is_last, good fo [it] -> consumers_item is_last it = true -> rg_item fo is_last it = true.
 Lemma good_single fo it c : good fo (it :: c) -> good fo [it].
 Proof.
-  destruct it as [n r m b brs]. intros H. destruct (good_cons fo n r m b brs c H) as (H1 & H2 & H3 & _).
-  unfold good, has_branch_mult, cls_double_close, cls_nodemult_sym. rewrite sites_cons, flat_chain_cons.
-  cbn [forallb existsb i_mult i_bond]. rewrite H1. cbn [andb]. rewrite !app_nil_r, !existsb_app.
+  destruct it as [n r m b brs]. intros H. destruct (good_cons fo n r m b brs c H) as (H1 & H3 & _).
+  unfold good, has_branch_mult, cls_double_close. rewrite sites_cons, flat_chain_cons.
+  cbn [forallb]. rewrite H1. cbn [andb]. rewrite !app_nil_r, !existsb_app.
   rewrite forallb_flat_map, !existsb_flat_map.
   assert (Hb : forall br, In br brs -> good fo (b_chain br)) by (intros br Hin; now destruct (H3 br Hin) as (_ & _ & ?)).
   assert (E1 : forallb (fun x => forallb (item_ok fo) (flat_chain (b_chain x))) brs = true).
@@ -333,18 +325,14 @@ Proof.
   assert (E2 : forall p, (forall br, In br brs -> existsb p (sites (b_chain br)) = false) ->
                          existsb (fun x => existsb p (sites (b_chain x))) brs = false).
   { intros p Hp. apply not_true_is_false. intros E. apply existsb_exists in E as (br & Hin & E). rewrite (Hp br Hin) in E. discriminate. }
-  assert (E3 : existsb (fun x => existsb (fun it => is_some (i_mult it) && is_some (i_bond it)) (flat_chain (b_chain x))) brs = false).
-  { apply not_true_is_false. intros E. apply existsb_exists in E as (br & Hin & E). destruct (Hb br Hin) as (_ & _ & _ & G).
-    unfold cls_nodemult_sym in G. rewrite G in E. discriminate. }
-  rewrite E1, E3. rewrite !E2.
-  - destruct H as (_ & G2 & G3 & _). unfold has_branch_mult, cls_double_close in G2, G3. rewrite sites_cons, !existsb_app in G2, G3.
-    apply orb_false_elim in G2 as [G2 _]. apply orb_false_elim in G3 as [G3 _]. rewrite G2, G3.
-    repeat split. destruct m, b; try reflexivity. cbn in H2. discriminate.
-  - intros br Hin. now destruct (Hb br Hin) as (_ & _ & ? & _).
-  - intros br Hin. now destruct (Hb br Hin) as (_ & ? & _ & _).
+  rewrite E1. rewrite !E2.
+  - destruct H as (_ & G2 & G3). unfold has_branch_mult, cls_double_close in G2, G3. rewrite sites_cons, !existsb_app in G2, G3.
+    apply orb_false_elim in G2 as [G2 _]. apply orb_false_elim in G3 as [G3 _]. rewrite G2, G3. repeat split.
+  - intros br Hin. now destruct (Hb br Hin) as (_ & _ & ?).
+  - intros br Hin. now destruct (Hb br Hin) as (_ & ? & _).
 Qed.
 Lemma good_tail fo it c : good fo (it :: c) -> good fo c.
-Proof. destruct it as [n r m b brs]. intros H. now destruct (good_cons fo n r m b brs c H) as (_ & _ & _ & ?). Qed.
+Proof. destruct it as [n r m b brs]. intros H. now destruct (good_cons fo n r m b brs c H) as (_ & _ & ?). Qed.
 
 Lemma chain_rg fo c : Forall (item_rg fo) c -> good fo c -> consumers_chain c = true -> rg_chain fo c = true.
 Proof.
@@ -374,8 +362,8 @@ Lemma ast_rg fo : forall it, item_rg fo it.
 Proof.
   apply (item_ind2 (item_rg fo) (fun br => Forall (item_rg fo) (b_chain br))).
   - intros n r m b brs Hbrs is_last Hg Hc. rewrite rg_item_eq. rewrite consumers_item_eq in Hc.
-    apply andb_prop in Hc as [Hc1 Hc2]. destruct (good_cons fo n r m b brs [] Hg) as (H1 & H2 & H3 & _).
-    rewrite H1, H2, Hc1. cbn [andb]. clear Hc1 Hg H1 H2.
+    apply andb_prop in Hc as [Hc1 Hc2]. destruct (good_cons fo n r m b brs [] Hg) as (H1 & H3 & _).
+    rewrite H1, Hc1. cbn [andb]. clear Hc1 Hg H1.
     induction brs as [|[c bm a] tl IHb]; [reflexivity|].
     inversion Hbrs as [|? ? Hb Htl]; subst. cbn [b_chain] in Hb.
     cbn [cons_brs] in Hc2. apply andb_prop in Hc2 as [Hc2 Hc3]. apply andb_prop in Hc2 as [Hca Hcc].
@@ -389,17 +377,15 @@ Proof.
 Qed.
 
 (** L2 and the combination *)
-Theorem rg_of_wf fo a : wf fo a = true -> has_branch_mult a = false -> cls_double_close a = false ->
-  cls_nodemult_sym a = false -> rg_chain fo a = true.
+Theorem rg_of_wf fo a : wf fo a = true -> has_branch_mult a = false -> cls_double_close a = false -> rg_chain fo a = true.
 Proof.
-  intros Hwf Hb Hd Hn. unfold wf in Hwf. apply andb_prop in Hwf as [Hwf _]. apply andb_prop in Hwf as [Hwf Hcons].
+  intros Hwf Hb Hd. unfold wf in Hwf. apply andb_prop in Hwf as [Hwf _]. apply andb_prop in Hwf as [Hwf Hcons].
   apply andb_prop in Hwf as [_ Hok]. apply chain_rg; [|repeat split; assumption|assumption].
   apply Forall_forall. intros it _. apply ast_rg.
 Qed.
-Theorem flat_ok_of_wf fo a : wf fo a = true -> has_branch_mult a = false -> cls_double_close a = false ->
-  cls_nodemult_sym a = false -> flat_ok fo a = true.
+Theorem flat_ok_of_wf fo a : wf fo a = true -> has_branch_mult a = false -> cls_double_close a = false -> flat_ok fo a = true.
 Proof.
-  intros Hwf Hb Hd Hn. apply flat_ok_of_rg; [now apply rg_of_wf|].
+  intros Hwf Hb Hd. apply flat_ok_of_rg; [now apply rg_of_wf|].
   unfold wf in Hwf. destruct a; [discriminate|discriminate].
 Qed.
 Print Assumptions flat_ok_of_wf.
